@@ -10,6 +10,8 @@ pub fn dispatch(f: &[String]) -> String {
         "pratt" => pratt(&f[1]),
         "type" => types(f),
         "call" => call(&f[1], &f[2], &f[3]),
+        "repl" => repl(&f[1], &f[2], &f[3..]),
+        "reexec" => reexec(&f[1], &f[2], &f[3]),
         other => format!("(bad-mode {other})"),
     }
 }
@@ -357,4 +359,81 @@ fn call(flags: &str, fsrc: &str, asrc: &str) -> String {
     let t = code.return_type();
     let run = run_monitored(&declared, || code.exec());
     format!("(call-accepted {} {} {})", ftype, canon::ty(&t), run)
+}
+
+
+fn show_result(r: Result<Result<Variable, simplesl::ExecError>, Box<dyn std::any::Any + Send>>) -> String {
+    match r {
+        Err(_) => format!("(panic {})", take_panic()),
+        Ok(Err(e)) => format!("(error {})", canon::exec_error(&e)),
+        Ok(Ok(v)) => format!("(value {})", canon::value(&v)),
+    }
+}
+
+/// `repl <flags> <names> <input>*`: every input is parsed against, and run unscoped in, ONE
+/// interpreter (what src/main.rs does); after each input the result and the values of `names`
+fn repl(flags: &str, names: &str, inputs: &[String]) -> String {
+    let mut interp = interpreter_for(flags);
+    let names: Vec<&str> = names.split(',').filter(|n| !n.is_empty()).collect();
+    let mut out = String::from("(repl");
+    for src in inputs {
+        let parsed = panic::catch_unwind(AssertUnwindSafe(|| Code::parse(&interp, src)));
+        let step = match parsed {
+            Err(_) => format!("(parse-panic {})", take_panic()),
+            Ok(Err(e)) => format!("(rejected {})", canon::error(&e)),
+            Ok(Ok(code)) => {
+                let r = panic::catch_unwind(AssertUnwindSafe(|| code.exec_unscoped(&mut interp)));
+                show_result(r)
+            }
+        };
+        let vars: Vec<String> = names
+            .iter()
+            .map(|n| match interp.get_variable(n) {
+                Some(v) => format!("({} {})", n, canon::value(v)),
+                None => format!("({} unbound)", n),
+            })
+            .collect();
+        out.push_str(&format!(" (step {} (vars {}))", step, vars.join(" ")));
+    }
+    out.push(')');
+    out
+}
+
+/// `reexec <flags> <setup program run unscoped> <program>`: parse `program` against the interpreter,
+/// `exec` it three times; the interpreter's variables must not change and the results must agree
+fn reexec(flags: &str, setup: &str, src: &str) -> String {
+    let mut interp = interpreter_for(flags);
+    if !setup.is_empty() {
+        match Code::parse(&interp, setup) {
+            Ok(c) => {
+                if c.exec_unscoped(&mut interp).is_err() {
+                    return "(setup-failed)".into();
+                }
+            }
+            Err(e) => return format!("(setup-rejected {})", canon::error(&e)),
+        }
+    }
+    let snapshot = |i: &Interpreter| -> String {
+        let mut names: Vec<String> = Vec::new();
+        // the setup's names are a..z single letters and c0..c9 by convention of the generator
+        for n in ["a", "b", "c", "d", "e", "x", "y", "z", "c0", "c1", "c2", "log"] {
+            if let Some(v) = i.get_variable(n) {
+                names.push(format!("({} {})", n, canon::value(v)));
+            }
+        }
+        names.join(" ")
+    };
+    let before = snapshot(&interp);
+    let code = match panic::catch_unwind(AssertUnwindSafe(|| Code::parse(&interp, src))) {
+        Err(_) => return format!("(parse-panic {})", take_panic()),
+        Ok(Err(e)) => return format!("(rejected {})", canon::error(&e)),
+        Ok(Ok(c)) => c,
+    };
+    let mut runs = Vec::new();
+    for _ in 0..3 {
+        let r = panic::catch_unwind(AssertUnwindSafe(|| code.exec()));
+        runs.push(show_result(r));
+    }
+    let after = snapshot(&interp);
+    format!("(reexec (before {}) (after {}) (runs {}))", before, after, runs.join(" "))
 }
